@@ -46,6 +46,9 @@ SAFETY_FLAGS = {
     # flagged (the code base relies on two's complement wrap-around)
     "mem": ["--bounds-check", "--pointer-check", "--no-signed-overflow-check",
             "--no-undefined-shift-check"],
+    # memory safety + arithmetic that traps on the shipped platform
+    "trap": ["--bounds-check", "--pointer-check", "--signed-overflow-check",
+             "--div-by-zero-check", "--no-undefined-shift-check"],
     "arith": ["--bounds-check", "--pointer-check", "--pointer-overflow-check",
               "--conversion-check", "--signed-overflow-check",
               "--div-by-zero-check", "--undefined-shift-check"],
@@ -445,7 +448,13 @@ def run_variant(t, tier, neg=None, keep=False):
         nres = res["results"]
         if not nres:
             raise Undecided("zero obligations generated")
+        ign = [re.compile(x) for x in t.get("ignore_obligations", [])]
+        for r in nres:
+            if r["status"] != "SUCCESS" and any(
+                    g.search(r.get("description", "")) for g in ign):
+                r["status"] = "IGNORED"
         if neg is not None:
+            nres = [r for r in nres if r["status"] != "IGNORED"]
             fired = [r for r in nres if r["status"] != "SUCCESS" and
                      not is_library_obligation(r)]
             if not fired:
@@ -472,7 +481,7 @@ def run_variant(t, tier, neg=None, keep=False):
                                 " found %d (loop contract dropped?)" %
                                 (t.get("expect_loops"), n))
         failed = [r for r in nres if r["status"] == "FAILURE"]
-        unknown = [r for r in nres if r["status"] not in ("SUCCESS", "FAILURE")]
+        unknown = [r for r in nres if r["status"] not in ("SUCCESS", "FAILURE", "IGNORED")]
         if failed or unknown:
             bad = failed or unknown
             bad = sorted(bad, key=lambda r: (
@@ -624,6 +633,9 @@ def check_property(pid, tier):
     n_obl = sum(len(r["obligations"]) for r in results)
     n_ok = sum(1 for r in results for o in r["obligations"]
                if o["status"] == "SUCCESS")
+    n_ign = sum(1 for r in results for o in r["obligations"]
+                if o["status"] == "IGNORED")
+    n_obl -= n_ign
     by_route = {}
     for t, r in zip(order, results):
         by_route.setdefault(t.get("route", "?"), []).append(t["id"])
@@ -673,6 +685,9 @@ def check_property(pid, tier):
                 b: sum(len(r["obligations"]) for t, r in zip(order, results)
                        if t.get("backend", "sat") == b)
                 for b in set(t.get("backend", "sat") for t in targets)},
+            ignored_obligations=sorted(set(
+                "%s: %s" % (o["name"], o["description"]) for r in results
+                for o in r["obligations"] if o["status"] == "IGNORED")),
             primary_obligations=sum(1 for r in results for o in r["obligations"]
                                     if not o["library"]),
             solver_time_s=round(sum(r["solver"] for r in results), 2),
